@@ -216,14 +216,14 @@ func run(sc scenario) (body func(), check func(r *vrt.Result) []finding) {
 					o.extra += line
 				}
 				if err != nil {
-					o.eofAfter = err == io.EOF
+					o.eofAfter = err == io.EOF || pworld.IsReset(err)
 					return
 				}
 				fmt.Fprintf(rw, "GET http://origin.test/after-hijack HTTP/1.1\r\nHost: origin.test\r\nX-Conn: %s\r\nX-Seq: 99\r\n\r\n", name)
 				o.sentAfterHijack = true
 				rest, err := io.ReadAll(br)
 				o.extra += string(rest)
-				o.eofAfter = err == nil
+				o.eofAfter = err == nil || pworld.IsReset(err)
 			}
 			start := 0
 			if mode != "plain" {
